@@ -1,6 +1,14 @@
-"""C08: a note is a one-way flag set by notify, by its deadline, or by an ancestor."""
+"""C08: a note is a one-way flag set by notify, by its deadline, or by an ancestor (sequential half)."""
 from checks import e3check
 
-QUICK = ['note_notifyroot_pollchild_R3', 'note_notifyroot_waitchild_R3', 'note_notifychild_siblings_R3']
-THOROUGH = ['note_notifyroot_notifychild_R3', 'note_newunderroot_notifyroot_R3', 'note_notifyroot_waitchild_R4', 'note_notifyroot_pollchild_R4']
-scenarios, jobs, confirm, info = e3check.make('C08', QUICK, THOROUGH, 'harness/e3/note_basic.c on parent-child(-grandchild) notes built by the real nsync_note_new: notify returns with the note notified; pollers never see notified then un-notified; after all notifies returned every descendant is notified (final check) and waiters on descendants are released (deadlock oracle); notifying a child leaves the parent un-notified.', ['nsync_note_new', 'nsync_note_notify', 'notify', 'note_notify_child', 'nsync_note_is_notified', 'nsync_note_notified_deadline_', 'nsync_note_wait', 'note_enqueue', 'note_dequeue', 'nsync_wait_n'], ['deadline-driven notification (all notes here have no deadline): the expiry arithmetic is not covered', 'depth 3 only in thorough'])
+QUICK = ['ns_h_expiry_R1', 'ns_h_new_under_notified_R1']
+THOROUGH = ['ns_h_notify_child_R1', 'ns_h_notify_root_R1', 'note_notifyroot_pollchild_R3']
+scenarios, jobs, confirm, info = e3check.make('C08', QUICK, THOROUGH,
+    'SEQUENTIAL HALF ONLY. harness/e3/note_seq.c, one thread, one context, loops unrolled: a tree root -> child -> grand plus a sibling is built by the real nsync_note_new with solver-chosen deadlines from '
+    '{none, 100 s, 200 s, 300 s} (clock frozen at 0): nsync_note_expiry of every note equals the minimum of the deadlines on its path to the root; nothing is notified at creation; a note created under a '
+    'notified parent is born notified; [thorough] nsync_note_notify(child) returns with child and grandchild notified and root and sibling untouched; notify(root) reaches every descendant. '
+    'The concurrent half (interleavings of notifiers, pollers and waiters; deadline-driven notification) is NOT decided: the two-thread note scenarios produce programs beyond the bounded model checker\'s reach '
+    '(one of them is attempted as an optional query in the thorough tier).',
+    ['nsync_note_new', 'nsync_note_expiry', 'nsync_note_is_notified', 'nsync_note_notified_deadline_', 'nsync_note_notify', 'notify', 'note_notify_child'],
+    ['every concurrent behaviour of notes', 'deadlines in the past / expiring during the run (the lazy-expiry notify is asserted unreachable under the frozen clock)'])
+WORKERS = 4
